@@ -219,6 +219,7 @@ class HelicityModel:
 
     def __collect_symbols(self) -> set[sp.Symbol]:
         symbols: set[sp.Symbol] = self.expression.free_symbols  # type: ignore[assignment]
+        symbols |= set(self.parameter_defaults)  # type: ignore[arg-type]
         symbols |= set(self.kinematic_variables)
         for expr in self.kinematic_variables.values():
             symbols |= expr.free_symbols  # type: ignore[arg-type]
